@@ -515,6 +515,8 @@ def run_free(shard):
 # --------------------------------------------------------------------------- calibration
 
 def cal_probe(detector, a=0.0, b=0.0):
+    if probes.HOOK:
+        probes.HOOK("model.in:cal")
     shape = detector.geometry.shape
     base = np.arange(shape[0] * shape[1], dtype=float).reshape(shape)
     detector.pixel.array = float(a) * base + float(b)
@@ -679,6 +681,8 @@ def _is_fitness_task(key):
 
 
 BFE = {"det": dict(model=("props.c07_parallel.cal_probe", {"a": 1.0, "b": 0.0}), seed=None),
+       # two processors per candidate (an input argument with two values + two target files)
+       "det2": dict(model=("props.c07_parallel.cal_probe", {"a": 1.0, "b": 0.0}), seed=None, inputs=[0.0, 2.0]),
        "noisy": dict(model=("vp.probes.noisy", {"a": 1.0, "sigma": 1.0}), seed=11)}
 
 
@@ -692,12 +696,21 @@ def bfe_setup(name, tmp):
     cfg = BFE[name]
     tgt = os.path.join(tmp, "t.npy")
     np.save(tgt, np.ones((2, 3)))
+    tgts = [tgt]
+    kw2 = {}
+    if cfg.get("inputs"):
+        tgts = []
+        for i, _v in enumerate(cfg["inputs"]):
+            tgts.append(os.path.join(tmp, f"t{i}.npy"))
+            np.save(tgts[-1], np.ones((2, 3)) * (i + 1))
+        kw2["result_input_arguments"] = [ParameterValues(key="pipeline.charge_collection.m.arguments.b",
+                                                         values=list(cfg["inputs"]))]
     det = mk.detector("ccd", 2, 3)
     pipe = mk.pipeline({"charge_collection": [(cfg["model"][0], "m", dict(cfg["model"][1]))]})
     kw = {"pipeline_seed": cfg["seed"]} if cfg["seed"] is not None else {}
-    cal = calib.calibration([tgt], [ParameterValues(key="pipeline.charge_collection.m.arguments.a", values="_",
-                                                    boundaries=(0.0, 5.0))],
-                            generations=1, population_size=8, pygmo_seed=1, **kw)
+    cal = calib.calibration(tgts, [ParameterValues(key="pipeline.charge_collection.m.arguments.a", values="_",
+                                                   boundaries=(0.0, 5.0))],
+                            generations=1, population_size=8, pygmo_seed=1, **kw, **kw2)
     problem, _ = calib.real_problem(cal, Processor(detector=det, pipeline=pipe))
     return problem, pg.problem(problem)
 
